@@ -492,6 +492,26 @@ func genVisoTree(r *rng, big bool) (*tree, string) {
 		return d + "/" + n
 	}
 	nd := r.intn(6)
+	manyDirs := r.chance(8)
+	if manyDirs {
+		// many directories: the Joliet path table (two bytes per character) outgrows the primary one
+		// by whole sectors, directories of directories span several sectors
+		many := 86 + r.intn(40)
+		for i := 0; i < many; i++ {
+			parent := dir
+			if r.chance(20) && len(dirs) > 1 {
+				parent = dirs[1+r.intn(len(dirs)-1)]
+			}
+			p := join(parent, fmt.Sprintf("dir_%04d%s", i, strings.Repeat("y", r.intn(6))))
+			if used[p] || strings.Count(p, "/") > 6 {
+				continue
+			}
+			used[p] = true
+			dirs = append(dirs, p)
+			t.add(tnode{path: p, kind: 'd', mtime: genMtime(r)})
+		}
+		nd = 0
+	}
 	for i := 0; i < nd; i++ {
 		p := join(dirs[r.intn(len(dirs))], genName(r))
 		if used[p] || len(p) > 1500 {
@@ -501,9 +521,12 @@ func genVisoTree(r *rng, big bool) (*tree, string) {
 		dirs = append(dirs, p)
 		t.add(tnode{path: p, kind: 'd', mtime: genMtime(r)})
 	}
-	for _, d := range dirs {
+	for di, d := range dirs {
 		nf := r.intn(5)
-		if r.chance(10) {
+		if manyDirs && di > 6 {
+			nf = r.intn(8) / 7 // the model's layout arithmetic is cubic in the number of directories: keep these trees light
+		}
+		if r.chance(10) && !manyDirs {
 			nf = 30 + r.intn(60) // enough records to need several sectors
 		}
 		for i := 0; i < nf; i++ {
@@ -524,7 +547,8 @@ func genVisoTree(r *rng, big bool) (*tree, string) {
 	}
 	if big {
 		for i, sz := range []int64{1<<32 - 2048, 1 << 32, 1<<32 + 1, 9 << 30, 2 * (1<<32 - 2048), 2*(1<<32-2048) + 1, 1<<32 - 1} {
-			if r.chance(35) {
+			// the sizes at the 32-bit border of a single extent are always present; the others often
+			if r.chance(35) || sz == 1<<32 || sz == 1<<32-1 {
 				n := tnode{path: join(dir, fmt.Sprintf("huge%d.bin", i)), kind: 'f', size: sz, seed: sparseSeed, mtime: genMtime(r)}
 				for _, off := range []int64{0, 2047, 1<<32 - 2048 - 50, 1<<32 - 50, sz - 100, sz / 2} {
 					if off >= 0 && off+100 <= sz {
@@ -645,6 +669,9 @@ func visoStream(o *out, r *rng, trees int, opsPer int, big bool) {
 			impl, _ := runViso(root, c)
 			oracle := ""
 			o.count(fmt.Sprintf("ps3:%v", ps3))
+			if nd := len(t.pathsOf('d')); nd > 60 {
+				o.count("many-dirs")
+			}
 			if strings.HasPrefix(impl, "size=") {
 				o.count("built")
 			} else {
